@@ -30,6 +30,14 @@ def validate_twin(rep, wd, trace, side, label, what):
 
     def on_reject(rid, ln, ev, lines):
         s = sides.get(rid, {})
+        # known finding: a user-defined immediate word, run while the source is being built, sees the data stack earlier
+        # sources left under eval (same mode: shared base) but not under compile (the compile context hides it)
+        modes = {m["mode"]: json.dumps(m.get("obs"), sort_keys=True) for m in s.get("modes", [])}
+        src = s.get("src", "")
+        if ("immediate" in src and src.startswith("[after") and modes.get("eval") == modes.get("eval+rec")
+                and len({modes.get(k) for k in ("run", "run+rec", "step", "step+rec")}) == 1 and modes.get("eval") != modes.get("run")):
+            rep.violation("immediate-prior-stack", f"{what}: `{src}` differs between eval and compile", s)
+            return
         rep.violation(f"{label}:" + s.get("src", "?"), f"{what}: `{s.get('src')}` differs in variant {ev.get('mode')}", s)
     return vlib.validate_runs("Trace_TwinObs", trace, wd, on_reject, name="Trace_" + label)
 
